@@ -9,8 +9,10 @@ from .common import pmap, load_known
 
 SAFE_PATHS = ["t", ".", "t/sub", "./t", "nonexist", "t/a b", "t/x,y", "t/2021-01"]
 FUNC_ARGS = ["", "a", "-1", "0", "1", "2.5", "x", "name", "size", "'é'", "99999999999999999999", "modified", "'2024-02-30'", "1, 2", "name, x", "name, 0",
-             "name, -2, 1", "'a', 'b', 'c'", "size, y", "name, 1, x", "'', ''", "name, 99999999999", "-size", "size, 0.5", "9223372036854775807, 1"]
-LITERALS = ["maybe", "''", "2017-05-01 25", "'2017-13-45'", "'[a'", "'(unclosed'", "1.2.3", "10zb", "-", "+", "'*['", "%", "between", "and", "()"]
+             "name, -2, 1", "'a', 'b', 'c'", "size, y", "name, 1, x", "'', ''", "name, 99999999999", "-size", "size, 0.5", "9223372036854775807, 1",
+             "name, -2147483648", "name, -2147483647", "name, 2147483647", "name, 1, 18446744073709551615", "'+a'", "'-x'", "'+1.5'", "'٢٠٢٣-١٢-١١'", "'2023-12-١١'", "'+99'", "'-999'"]
+LITERALS = ["maybe", "''", "2017-05-01 25", "'2017-13-45'", "'[a'", "'(unclosed'", "1.2.3", "10zb", "-", "+", "'*['", "%", "between", "and", "()",
+            "'+a'", "'-x'", "'+1.5'", "'-.5'", "'+'", "'-'", "'٢٠٢٣-١٢-١١'", "'2023-12-١١'", "'2023-12-11 ١'", "'+é'", "'+999'", "'-99'"]
 
 
 def build_tree(ctx):
@@ -82,13 +84,13 @@ def run(ctx):
     argvs = list(vectors)
     funcs = pd.FUNCS
     for f in (funcs if ctx.tier == "thorough" else rng.sample(funcs, 25)):
-        for a in (FUNC_ARGS if ctx.tier == "thorough" else rng.sample(FUNC_ARGS, 8)):
+        for a in (FUNC_ARGS if ctx.tier == "thorough" else rng.sample(FUNC_ARGS, 10)):
             argvs.append(["%s(%s) from t" % (f, a)])
             argvs.append(["name from t where %s(%s) = 1" % (f, a)])
             argvs.append(["name", "from", "t", "order", "by", "%s(%s)" % (f, a)])
     for col in ("size", "name", "is_dir", "modified", "mode", "length(name)"):
         for op in ("=", ">", "like", "=~", "between", "==="):
-            for lit in (LITERALS if ctx.tier == "thorough" else rng.sample(LITERALS, 5)):
+            for lit in (LITERALS if ctx.tier == "thorough" else rng.sample(LITERALS, 9)):
                 argvs.append(["name from t where %s %s %s" % (col, op, lit)])
     for extra in (["-c"], ["-i"] * 0 + ["--config"], ["-c", "nonexistent.toml", "name", "from", "t"], [""], [" "], ["'"], ['"unterminated'], ["name", "into"], ["name", "limit"],
                   ["name from t order by 0"], ["name from t order by 2"], ["name from t order by desc"], ["name from t group by"], ["name from t where size =< 3"], ["/"], ["*", "/", "name"],
